@@ -244,6 +244,20 @@ def rule_indent_state(rep: Report, tz, tk) -> None:
 			r.skip('dedent-count', f.where, 'no DEDENT emission found in handle_white_space')
 
 
+def rule_quote_escape(rep: Report, tz) -> None:
+	"""CPython ends a string literal at the first closing quote that is not preceded by a backslash — for every prefix, raw strings included
+	(r"\\"" is one token). The scan of Lexer.parse_quote must therefore test the same constant backslash for every quote pair."""
+	r = rep.rule('C13/quote-escape-independent-of-prefix', 'Lexer.parse_quote decides whether a closing quote is escaped by comparing the preceding character with the constant backslash, for every quote pair (raw strings too)', floor=1)
+	f = tz.func('Lexer.parse_quote')
+	fx = FI(f)
+	cmps = [c_ for c_ in nodes(fx, ast.Compare) if len(c_.ops) == 1 and isinstance(c_.ops[0], (ast.Eq, ast.NotEq)) and isinstance(c_.left, ast.Subscript) and unparse(c_.left.value) == f.params()[1]]
+	if not cmps:
+		r.skip('escape-test', f.where, 'parse_quote no longer compares source[<prev>] with an escape character')
+	for c_ in cmps:
+		rhs = c_.comparators[0]
+		r.check(isinstance(rhs, ast.Constant) and rhs.value == '\\', f'escape-test:{unparse(c_)[:50]}', (TOKENIZER_PY, c_.lineno), f'parse_quote tests the character before a closing quote against `{unparse(rhs)[:80]}`: the escape character must be the backslash for every quote pair; making it depend on the opener (raw strings) ends r"\\"" at the escaped quote, and the rest of the line is lexed as a new string', unparse(c_))
+
+
 def rule_source_map(rep: Report, tk) -> None:
 	"""a column is the offset minus the start of *its own* line, i.e. one past the LAST line break before that offset. Begin and end columns are sibling
 	computations and must use the same primitive (backward search bounded by the offset itself)"""
@@ -378,6 +392,7 @@ def run(rep: Report, tier: str) -> None:
 	ru.check(reads <= {'string'}, 'parser-matches-by-string', ct.where, f'SyntaxParser._compare_token reads token.{sorted(reads)}; the grammar tokenizer shifts symbol offsets after "/", which is harmless only while terminals are matched by string')
 
 	rule_bracket_layout(rep, tz)
+	rule_quote_escape(rep, tz)
 	rule_indent_state(rep, tz, tk)
 	rule_source_map(rep, tk)
 
